@@ -566,7 +566,7 @@ def g_expr(rng, d, leaf_only=False):
         if c < 0.45:
             return [A('v'), rng.choice(NAMES)]
         if c < 0.6:
-            return [A('i'), rng.randrange(4), A('none') if rng.random() < 0.7 else [A('d'), 'jpim']]
+            return [A('i'), rng.choice([0, 0, 1, 2, 3]), A('none') if rng.random() < 0.7 else [A('d'), 'jpim']]   # 0 is falsy (IntLiteral.__bool__)
         if c < 0.7:
             return [A('f'), rng.choice(['1.0', '2.5']), A('none') if rng.random() < 0.5 else [A('v'), 'jprb']]
         if c < 0.78:
@@ -647,6 +647,21 @@ def g_node(rng, d, opts):
     raise ValueError(k)
 
 
+def g_falsy_tree(rng):
+    zero, zk, fal, tru = [A('i'), 0, A('none')], [A('i'), 0, [A('d'), 'jpim']], [A('l'), A('false')], [A('l'), A('true')]
+    pool = [zero, zk, fal, tru, [A('i'), 7, A('none')], [A('sum'), [zero, [A('v'), 'n']]], [A('neg'), [A('i'), 1, A('none')]],
+            [A('f'), '0.0', A('none')], [A('ll'), [zero, zk]], [A('cmp'), '==', zero, fal], [A('call'), 'f', [zero], [['k', fal]]]]
+    pick = lambda: rng.choice(pool[:4]) if rng.random() < 0.6 else rng.choice(pool)
+    decls = [[A('decl'), [[A('vi'), f'k{j}{i}', pick()] for i in range(rng.randint(1, 2))]] for j in range(rng.randint(1, 3))]
+    decls.append([A('decl'), [[A('a'), 'w', [pick()], A('none')]]])
+    body = [[A('loop'), [A('v'), 'i'], [A('lrng'), pick(), pick()],
+             [[A('cond'), pick(), [[A('callstmt'), 'sub', [pick(), pick()], [['opt', pick()]]]], [[A('assign'), [A('a'), 'w', [pick()], A('none')], pick()]]]]],
+            [A('while'), pick(), []],
+            [A('mcond'), pick(), [[pick()]], [[[A('assign'), [A('v'), 'r'], pick()]]], []]]
+    rng.shuffle(body)
+    return [A('sect'), decls + body[:rng.randint(1, 3)]]
+
+
 SOURCES = ["""
 subroutine foo(n, a, b, t)
   use kinds, only: jprb
@@ -708,6 +723,24 @@ subroutine baz(n, s)
   end do
   print *, "the sum is", summed, n
   s = s(1:2) // 'ab'
+end subroutine
+""", """
+subroutine zeros(n, res)
+  use kinds_mod, only: jpim
+  implicit none
+  integer(kind=jpim), intent(in) :: n
+  integer(kind=jpim), intent(out) :: res
+  integer(kind=jpim) :: lim = 10_jpim
+  integer(kind=jpim) :: cnt = 0_jpim
+  integer :: plain = 0, other = 7, comp = 0 + n
+  logical :: first = .true., done = .false.
+  real :: z = 0.0, w(0:n)
+  integer :: i
+  do i = 0, n, 0 + 1
+    if (.false.) res = 0
+    call sub(0, .false., opt=0)
+    w(0) = w(i) + 0
+  end do
 end subroutine
 """]
 
@@ -869,6 +902,10 @@ class C15(Prop):
                 names = query_names(f, None, root)
                 yield from emit([Case([A('retrieve'), [A(s) for s in names], ex(root), [A('expr'), r], A(f)], stream='retrieve',
                                       nontrivial=bool(names))])
+        # expression nodes that are falsy in Python (IntLiteral(0), 0 with a kind, .false.) in every expression-bearing field:
+        # declaration initial values, dimensions, loop bounds, conditions, call arguments, keyword arguments
+        for _ in range({'quick': 3}.get(tier, 40)):
+            yield from emit(mk_cases(rng, [A('ir'), g_falsy_tree(rng)], 'falsy', 6))
         # programmatic trees
         for i in range(ntrees):
             opts = {'ed': rng.choice([1, 2]), 'extra_leaf': [], 'extra_internal': []}
